@@ -9,13 +9,16 @@ class P(vlib.Prop):
             "constraint: constraints assembled from known parts (name, operator, version, pin) against neighbouring versions, plus operator runs and odd shapes; "
             "resolve: raw ResolvePackageNameVersionPin on malformed constraint strings; "
             "filter: one candidate (own version + provides) through the real filterPackages, the resolver's operator dispatch: equal versions spelled differently under every operator, "
-            "neighbouring versions, provided versions, malformed versions. Non-trivial = non-empty / a != b; distinct = distinct case terms.")
+            "neighbouring versions, provided versions, malformed versions; "
+            "soname: a so: provide against a so: constraint, both through ResolvePackageNameVersionPin (the 0. rescaling of versions without a release suffix): full grid of 5 versions x {none,-r0,-r1,-r3,-r10} on both sides "
+            "under every operator - same-kind pairs must compare as their versions do -, neighbouring versions, malformed versions. Non-trivial = non-empty / a != b; distinct = distinct case terms.")
     stages = (
         dict(name="parse", cmd="c03", args=lambda t, s: ["-stage", "parse"]),
         dict(name="compare", cmd="c03", args=lambda t, s: ["-stage", "compare"]),
         dict(name="constraint", cmd="c03", args=lambda t, s: ["-stage", "constraint"]),
         dict(name="resolve", cmd="c03", args=lambda t, s: ["-stage", "resolve"]),
         dict(name="filter", cmd="c03", args=lambda t, s: ["-stage", "filter"]),
+        dict(name="soname", cmd="c03", args=lambda t, s: ["-stage", "soname"]),
     )
     assumptions = (
         "Go's regexp engine implements the language of the AST that regexp/syntax parses (the matcher in Base/Regex.v is verified against that AST's semantics, bytes instead of runes; goextract refuses classes where the two differ)",
